@@ -268,3 +268,87 @@ COMPONENTS = [
               shrink=shrink, compare=compare),
 ]
 COMPONENTS[0].split = split
+
+
+# ------------------------------------------------------------------ binary64 layer (Grid/HealthFloat.v)
+# "each hit lowers the victim's health by exactly the attack strength (clamped at zero), agents
+# reaching zero health die and leave the grid" for health and strength that are arbitrary doubles:
+# the real actors hit one victim n times; the model is the standard library's executable
+# specification of binary64 (SpecFloat).  A double travels as (m e), value m * 2^e, m odd or 0.
+
+def f2w(x):
+    import math
+    x = float(x)
+    if x == 0:
+        return [0, 0]
+    if x != x or x in (float("inf"), float("-inf")):
+        return [3 if x != x else (2 if x > 0 else -2), 99999]
+    mant, exp = math.frexp(x)
+    m, e = int(mant * 2 ** 53), exp - 53
+    while m % 2 == 0:
+        m //= 2
+        e += 1
+    return [m, e]
+
+
+def w2f(w):
+    import math
+    return math.ldexp(float(w[0]), w[1])
+
+
+def impl_float(inp):
+    hm, he, sm, se, n, kind = inp
+    h, s = w2f([hm, he]), w2f([sm, se])
+    wags = [wagent(1, (0, 0)), wagent(2, (0, 1))]
+    agents = G.build_agents(wags, extra=lambda i: dict(attack_range=1, attack_strength=(s if i == 0 else 1.0),
+                                                       attack_accuracy=1.0, simultaneous_attacks=1))
+    grid = G.build_grid(1, 2, [])
+    actor = make_actor(kind, grid, agents, [[1, [2]], [2, []]], 0)
+    G.place_initial(grid, agents, wags)
+    att, vic = agents[G.aid(0)], agents[G.aid(1)]
+    vic.health = h
+    action = {0: 1, 1: {2: 1}, 2: np.ones((3, 3), dtype=int), 3: np.array([6], dtype=int)}[kind]
+    out = []
+    for _ in range(n):
+        actor.process_action(att, {"attack": action})
+        out.append([f2w(vic.health), 1 if vic.active else 0, 1 if vic.id in (grid[0, 1] or {}) else 0])
+    return out
+
+
+def split_float(inp, out):
+    return inp[:5], out
+
+
+def gen_float(tier, rng):
+    quick = tier != "thorough"
+    import math
+    for _ in range(1500 if quick else 60000):
+        r = rng.random()
+        if r < 0.45:          # decimal fractions: residues of repeated subtraction
+            den = rng.choice([10, 10, 100, 3, 7, 20, 1000])
+            h = rng.randint(1, den) / den
+            s = rng.randint(1, den) / den
+        elif r < 0.6:         # tiny values
+            h = rng.choice([5e-10, 1e-9, 1e-12, 3e-16, 2.0 ** -40, 1.0])
+            s = rng.choice([1e-10, 1e-9, 2.5e-13, 2.0 ** -42, 1e-17, 0.1])
+        elif r < 0.8:         # arbitrary doubles in (0, 1]
+            h, s = 1.0 - rng.random(), 1.0 - rng.random()
+        else:                 # dyadic values (the integer models' domain)
+            h, s = rng.randint(1, 32) / 32, rng.randint(1, 32) / 32
+        n = min(40, int(math.ceil(h / s)) + rng.randint(0, 2)) if s > 0 else 3
+        yield f2w(h) + f2w(s) + [max(1, n), rng.choice([0, 0, 1, 2, 3])]
+
+
+def nontrivial_float(inp, out):
+    return "(0 0) 0 0" in out
+
+
+def classify_float(inp, out):
+    h, s = w2f(inp[0:2]), w2f(inp[2:4])
+    dy = (h * 2 ** 20).is_integer() and (s * 2 ** 20).is_integer()
+    return ("dyadic" if dy else "non-dyadic") + ("/death" if "(0 0) 0 0" in out else "/survives")
+
+
+COMPONENTS.append(Component(1103, "float_health", impl_float, gen_float, chk=1104, nontrivial=nontrivial_float,
+                            classify=classify_float))
+COMPONENTS[-1].split = split_float
